@@ -12,9 +12,9 @@ THEOREMS = TB.THEOREMS_C02 + [
     ('EAO.Properties.C12', 'EAO.C12.limits_follow_dt', 'per-step volume limit = rate x step length'),
     ('EAO.Properties.C05', 'EAO.C05.storage_level_bounds', 'storage rows mean the physical level recursion with bounds and end level'),
 ]
-PARTIAL = ['refinement theorems are proved for storages (plain LP, one- and two-variable forms), transports and one-variable contracts; '
-           'NOT yet theorems (TARGET comments in C02.lean, covered by the reference-LP oracle and the builder correspondences only): the two-variable contract (needs ec >= 0: machine-checked witness Ex.ec_nonneg_needed), '
-           'multi-commodity contracts, the take rows as part of a refinement (take_prorated is proved about the builder), the empty window']
+PARTIAL = ['every asset class of the property has a refinement theorem (storages in plain-LP form, transports, extended transports with takes, one- and two-variable contracts with takes, multi-commodity contracts, empty windows); '
+           'explicit hypotheses: two-variable contract needs extra costs >= 0 and discount factors >= 0 (machine-checked witness Ex.ec_nonneg_needed that it cannot be dropped; the constructor does not check it), take rows need pairwise different steps of the window (IdxInj, evaluated per case) and an extended transport two different nodes; '
+           'the MIP storage options (no_simult_in_out, max_store_duration) are outside the textbook spec and covered under C05; the optimum itself is compared with the independent reference LP by the oracle (portfolio_refines gives equal upper bounds of the value sets, not the solver)']
 COMPONENTS = TB.COMPONENTS_C02
 RULE = ('random portfolios of contracts (spread, time-varying capacities in all parameter forms, min/max take), transports (efficiency, costs, both directions), extended transports, storages (efficiency, start/end level, inflow, three costs, two nodes), multi-commodity contracts; windows, wacc per asset, units, time zones / DST; '
         'per case: independent textbook LP (scipy/HiGHS over physical quantities, built from the scenario only) vs eaopack optimum; eaopack dispatch mapped to physical quantities and checked against the textbook constraints; second set-up on the same objects; plus builder correspondence cases (contracts, storages); '
@@ -32,7 +32,11 @@ def scenarios(seed, tier):
     for i in range(n // 3):
         yield 'ct%d' % i, {'stream': 'contract', 'case': CT.gen_case(random.Random(rnd.getrandbits(48)))}
     for i in range(n // 3):
-        yield 'st%d' % i, {'stream': 'storage', 'case': ST.gen_case(random.Random(rnd.getrandbits(48)), mip_prob=0.0)}
+        r1 = random.Random(rnd.getrandbits(48))
+        c = ST.gen_case(r1, mip_prob=0.0)
+        if i % 4 == 3 and not any(f.startswith('malformed') for f in c.get('features', [])):
+            c = ST.focus_holding(c, r1)
+        yield 'st%d' % i, {'stream': 'storage', 'case': c}
 
 
 def run_case(c, drv):
